@@ -199,10 +199,11 @@ def extra(ctx, tier, seed):
     o0, o1 = datetime(1900, 1, 1).toordinal(), datetime(2200, 12, 31).toordinal() + 1
     step = (o1 - o0) // 64 + 1
     jobs = [(seed, a, min(o1, a + step), full) for a in range(o0, o1, step)]
-    with mp.get_context("fork").Pool(min(16, os.cpu_count() or 1)) as pool:
-        res = pool.map(_days_chunk, jobs)
-        if full:
-            res += pool.map(_hours_chunk, [(y, m) for y in (1900, 1970, 2000, 2024, 2100, 2200) for m in range(1, 13)])
+    from vlib.core import pool_map
+
+    res = pool_map(_days_chunk, jobs)
+    if full:
+        res += pool_map(_hours_chunk, [(y, m) for y in (1900, 1970, 2000, 2024, 2100, 2200) for m in range(1, 13)])
     n = sum(r[0] for r in res)
     nt = sum(r[1] for r in res)
     for _, _, bad in res:
